@@ -21,7 +21,7 @@ use std::time::Duration;
 pub const META: PropMeta = PropMeta {
     id: "C20",
     level: "exploration",
-    rule: "cases: (a) random (id,generation,sub) triples, pairs of triples and raw usize keys checked for round trip, injectivity, field isolation, reserved key, bump/same_source laws; (b) boundary-id planes over all generations x sub-ids (quick: every generation x sub-ids at stride 61; thorough: every pair), distinct by construction; (c) token factories asked for n tokens; (d) real loops whose slot is reused g times, key compared with the kernel epoll table; (e) composites mixing calloop's Generic children with token-drawing children in generated order, inserted and re-registered 0..3 times: every live sub-source holds its own key of the source's (slot, generation), pairwise distinct (kernel table for the Generic children). non-trivial: generation >= 256 or sub-id >= 256 or id >= 2^16, a factory run of >= 255 tokens, or a loop case with >= 2 reuses or >= 2 sub-sources. distinct: by fingerprint of the case (planes: by construction)",
+    rule: "cases: (a) random (id,generation,sub) triples, pairs of triples and raw usize keys checked for round trip, injectivity, field isolation, reserved key, bump/same_source laws; (b) boundary-id planes over all generations x sub-ids (quick: every generation x sub-ids at stride 61; thorough: every pair), distinct by construction; (c) token factories asked for n tokens; (d) real loops whose slot is reused g times, key compared with the kernel epoll table; (e) composites mixing calloop's Generic children with token-drawing children in generated order, inserted and re-registered 0..3 times: every live sub-source holds its own key of the source's (slot, generation), pairwise distinct (kernel table for the Generic children). non-trivial: generation >= 256 or sub-id >= 256 or id >= 2^16, a factory run of >= 255 tokens, or a loop case with >= 2 reuses or >= 2 sub-sources. distinct: by fingerprint of the case (planes: by construction); (ship) the triple / factory / loop cases once more in a build without overflow checks and debug assertions",
     assumptions: &[
         "verif::pack/unpack/bump_version/same_source/token_factory are thin wrappers over TokenInner conversions (hook commit)",
         "/proc/self/fdinfo reports the epoll data field as registered",
